@@ -1170,5 +1170,29 @@ pub fn all_cases(seed: u64, random_count: usize) -> Vec<Case> {
     fam_merkle(&mut out, &mut rng);
     fam_overflow(&mut out, &mut rng);
     fam_random(&mut out, &mut rng, random_count);
+    fam_direct_nesting(&mut out);
     out
+}
+
+/// /verif: control blocks that are DIRECTLY the body of a loop / the branch of a conditional / the root of a
+/// called procedure (no span in between) - shapes the generated nestings above never produce because every body
+/// there starts or ends with instructions.  Stack inputs drive the loop conditions (top first).
+fn fam_direct_nesting(out: &mut Vec<Case>) {
+    let shapes: Vec<(&str, &str, Vec<u64>)> = vec![
+        ("loop-in-loop/1x1", "begin while.true while.true push.3 drop end end end", vec![1, 1, 0, 0]),
+        ("loop-in-loop/2x2", "begin while.true while.true push.3 drop end end end", vec![1, 1, 1, 0, 1, 1, 0, 0, 0]),
+        ("loop-in-loop/inner-skipped", "begin while.true while.true push.3 drop end end end", vec![1, 0, 1, 0, 0]),
+        ("loop-in-loop-in-loop", "begin while.true while.true while.true push.3 drop end end end end", vec![1, 1, 1, 0, 0, 0]),
+        ("if-in-loop", "begin while.true if.true push.1 drop else push.2 drop end end end", vec![1, 1, 1, 0, 0]),
+        ("loop-in-if", "begin if.true while.true push.3 drop end else while.true push.4 drop end end end", vec![1, 1, 1, 0]),
+        ("loop-in-else", "begin if.true while.true push.3 drop end else while.true push.4 drop end end end", vec![0, 1, 0]),
+        ("call-in-loop", "proc.f push.5 drop end begin while.true call.f end end", vec![1, 1, 0]),
+        ("loop-as-proc-root", "proc.f while.true push.5 drop end end begin call.f end", vec![1, 1, 0]),
+        ("loop-as-proc-root-in-loop", "proc.f while.true push.5 drop end end begin while.true call.f end end", vec![1, 1, 0, 1, 0, 0]),
+        ("if-as-proc-root", "proc.f if.true push.5 drop else push.6 drop end end begin call.f call.f end", vec![1, 0]),
+        ("repeat-of-loop", "begin repeat.3 while.true push.3 drop end end end", vec![1, 0, 0, 1, 1, 0]),
+    ];
+    for (name, src, stack) in shapes {
+        out.push(Case::new(format!("direct/{name}"), src).stack(stack));
+    }
 }
